@@ -69,7 +69,7 @@ func runC12(c *Ctx) {
 			c.Check(g, "C12.D1-slice-bounded", key, sl.Pos(), "slice at the nonce length dominated by a length test on the same parameter", "caller-supplied bytes are sliced at the nonce length without a length test: truncated ciphertext panics instead of returning an error")
 		})
 	}
-	c.Floor("C12.D1-slice-bounded", 4)
+	c.Floor("C12.D1-slice-bounded", 2) // (the two decryptors may share one splitting helper)
 
 	// ---- D2 determinism ------------------------------------------------------------------------
 	badImp := ""
@@ -291,16 +291,48 @@ func runC12(c *Ctx) {
 		}
 		okE := false
 		for _, b := range e.SSA.Blocks {
-			if ret, isRet := b.Instrs[len(b.Instrs)-1].(*ssa.Return); isRet && c.RetX(ret, 1).Op == "nil" {
-				m, ok := Match(Op("builtin", "append", Extract("0", BindP("call", Call("dhash.EncryptAES"))), Extract("1", Bind("call2"))), c.RetX(ret, 0))
-				okE = ok && m["call"].V == m["call2"].V
-				if okE {
-					_, okE = c.GuardedB(b, EqNil(Extract("2", Is(m["call"]))), true)
+			ret, isRet := b.Instrs[len(b.Instrs)-1].(*ssa.Return)
+			if !isRet {
+				continue
+			}
+			var leaves []Leaf
+			if c.RetX(ret, 1).Op == "nil" {
+				// (directly, or through a sealing helper shared by the encryptors: every value it can return)
+				leaves = c.LeavesF(c.RetX(ret, 0), ret)
+			} else if h0, i0 := helperCall(c.RetX(ret, 0)); h0 != nil && i0 == 0 {
+				// 'return seal(x, k)': the helper's own success returns
+				if h1, i1 := helperCall(c.RetX(ret, 1)); h1 != nil && h1.V == h0.V && i1 == 1 {
+					vals, errs := c.RetAlts(c.RetX(ret, 0)), c.RetAlts(c.RetX(ret, 1))
+					for k := range vals {
+						if k < len(errs) && strip(errs[k].Val) != nil && strip(errs[k].Val).Op == "nil" {
+							for _, l := range c.LeavesF(vals[k].Val, nil) {
+								leaves = append(leaves, Leaf{Val: l.Val, Facts: append(append([]Fact{}, vals[k].Facts...), l.Facts...)})
+							}
+						}
+					}
+				}
+			}
+			if len(leaves) > 0 {
+				okE = true
+				for _, l := range leaves {
+					m, ok := Match(Op("builtin", "append", Extract("0", BindP("call", Call("dhash.EncryptAES"))), Extract("1", Bind("call2"))), l.Val)
+					okL := ok && m["call"].V == m["call2"].V
+					if okL {
+						okL = false
+						for _, fct := range append(append([]Fact{}, l.Facts...), c.FactsAt(b)...) {
+							if _, g := Match(EqNil(Extract("2", Is(m["call"]))), fct.Cond); g && fct.Val {
+								okL = true
+							}
+						}
+					}
+					if !okL {
+						okE = false
+					}
 				}
 			}
 		}
 		okD := false
-		for _, cs := range c.Calls(d.SSA, Call("dhash.DecryptAES")) {
+		for _, cs := range c.CallsInl(d.SSA, Call("dhash.DecryptAES"), 2) {
 			in := Op("param", d.SSA.Params[0].Name())
 			_, a := Match(Op("slice", "", in, Op("nil", ""), Const(nonceLen)), cs.X.Args[0])
 			_, b := Match(Op("slice", "", in, Const(nonceLen), Op("nil", "")), cs.X.Args[1])
